@@ -12,7 +12,7 @@
      4  the hypotheses of the theorems about a store: store_ok s (ranges inside their resource /
         parent, lengths within the cursor type) and the shape of every target; model: computed,
         spec: 1, the harness answers 1
-   Known class 1 = Known_C15_tempid (items without public id), 2 = Known_C15_empty_complex. *)
+   Known class 1 = Known_C15_tempid (items without public id). *)
 From Coq Require Import List ZArith NArith Bool Arith.
 Import ListNotations.
 From Stam Require Import Base.Sx Model.Offset Model.Store Model.Loader Model.Csv Spec.CsvSpec Run.StoreRun.
